@@ -28,8 +28,8 @@ ASSUMPTIONS = ["the reference law is DESIGN.md §0 (written from README 'Notatio
                "molecules are identified by RDKit canonical SMILES",
                "targets are forced (zero-width) so that only `choice` consumes randomness; ties within 1e-9 are skipped"]
 
-SIZES = {"quick": {"instances": 640, "max_paths": 300}, "thorough": {"instances": 12000, "max_paths": 6000}}
-SOFT_DEADLINE = {"quick": 80.0, "thorough": 1200.0}
+SIZES = {"quick": {"instances": 640, "max_paths": 300}, "thorough": {"instances": 12000, "max_paths": 2000}}
+SOFT_DEADLINE = {"quick": 80.0, "thorough": 1000.0}
 TOL = 1e-9
 
 
@@ -385,7 +385,9 @@ def run_shard(cfg):
     acc = Acc()
     sz = SIZES[cfg["tier"]]
     n = max(1, sz["instances"] // cfg["nshards"])
-    t_end = time.time() + SOFT_DEADLINE[cfg["tier"]]
+    t_start = time.time()
+    t_end = t_start + SOFT_DEADLINE[cfg["tier"]] * (1.0 if cfg["tier"] == "quick" else 0.6)  # Tier A's share
+    t_end_b = t_start + SOFT_DEADLINE[cfg["tier"]] + (25 if cfg["tier"] == "quick" else 0)     # Tier B until here
 
     def f(x):
         m, fr = x
@@ -403,7 +405,7 @@ def run_shard(cfg):
         return m, draw(st.integers(0, 2**31 - 1)), fr
 
     def g(x):
-        if time.time() > t_end + 25:
+        if time.time() > t_end_b:
             acc.count("tier_b_skipped_after_soft_deadline")
             return
         tier_b(acc, x[0], x[1], x[2])
